@@ -55,3 +55,14 @@ def run(V, wd):
             raise V.ToolError(f'corrupted {kind} event at line {i + 1} was NOT rejected')
         print(f'[setup] corrupted-trace control {kind}: rejected at line {i + 1} with {sorted(set(b[2] for b in hit))}')
     # dropping an event that defines a register must also be noticed (the later call no longer matches its operands)
+    idx = next(i for i, e in enumerate(evs) if e['ev'] == 'rload' and e['dst'] == 2)
+    path = os.path.join(wd, 'ctl_drop.ndjson')
+    with open(path, 'w') as f:
+        for j, e in enumerate(evs):
+            if j != idx:
+                f.write(json.dumps(e) + '\n')
+    bad, _, _ = V.validate_trace(path, wd, nchunks=1)
+    hit = [b for b in bad if b[2][0] == 'C']
+    if not hit:
+        raise V.ToolError('a trace with a dropped load event was NOT rejected')
+    print(f'[setup] corrupted-trace control drop-load: rejected at line(s) {sorted(set(b[0] for b in hit))[:3]} with {sorted(set(b[2] for b in hit))[:4]}')
